@@ -10,7 +10,7 @@ What is covered, built from the structure of the algorithm (src/uint/encoding.rs
    the limb alphabet of gen.py, zero high limbs (boxed values far narrower than their precision);
  * the `hi`-limb boundary of RadixDivisionParams::encode_limbs: values (top*B^lc + L) * div_limb^j + R whose j-th
    quotient has its top limb `top` in {D-1, D, D+1, D>>s, (D>>s)+-1, 2^(64-s)-1, 2^(64-s), 2^(64-s)+1, MAX} and the
-   exact witness class of finding F25 (hi = floor(D / 2^s), next limbs >= frac(D / 2^s)), also below a large
+   exact witness class of finding F30 (hi = floor(D / 2^s), next limbs >= frac(D / 2^s)), also below a large
    divisor multiple (so that the 32-limb remainder of the large-divisor loop carries the witness);
  * strings to parse: the canonical numerals of 0, 1, 2^BITS - 1, 2^BITS, 2^BITS + 1, radix^j (-1), B^i (+-1),
    2^p - 1 / 2^p for a boxed precision p, decorated with a leading '+', leading zeros (1, 2, many), single and
@@ -19,13 +19,13 @@ What is covered, built from the structure of the algorithm (src/uint/encoding.rs
    boxed parse); non-numerals: "", "+", "_", "+_", "_1", "+_1", "1_", "1__", "++1", "-1", "+-1", " 1", "1 ",
    the digit `radix` itself and `radix + 1` (as '0'..'9', 'a'..'z', 'A'..'Z'), the neighbours of the three
    accepted character ranges ('/', ':', '@', '[', '`', '{'), NUL, DEL, newline, multi-byte UTF-8, at the first /
-   a middle / the last position of short and of overflowing strings (finding F26: which error wins);
+   a middle / the last position of short and of overflowing strings (finding F31: which error wins);
    digit counts m*k + t for t in {0, 1, k-1} around the limb capacity (the final partial batch).
 """
 from .common import Case
 from .gen import *
 
-UINT_NS = [1, 2, 3, 4, 8, 16, 32, 33, 40]
+UINT_NS = [1, 2, 3, 4, 8, 16, 32, 33, 40]        # Uint<63> is available to the adapters too (large-divisor saturation class)
 BOXED_FIXED = [1, 2, 3, 31, 32, 33, 62, 63, 64, 65, 95, 96, 97, 128, 129, 140]
 DIG = b'0123456789abcdefghijklmnopqrstuvwxyz'
 DIGU = b'0123456789ABCDEFGHIJKLMNOPQRSTUVWXYZ'
@@ -161,8 +161,8 @@ def hi_boundary(rng, r, count):
     return out
 
 
-def f25_witnesses(rng, r, count):
-    """finding F25: the state hi = floor(D / 2^s) with the remaining limbs >= frac(D / 2^s) * B^lc makes the next top
+def f30_witnesses(rng, r, count):
+    """finding F30: the state hi = floor(D / 2^s) with the remaining limbs >= frac(D / 2^s) * B^lc makes the next top
     limb reach 2^(64-s); the original test `top << s < D` wrapped. Reached after j ~ log(D)/log(B/D) rounds."""
     k, D, s, dl, L = params(r)
     if s == 0 or D % (1 << s) == 0:
@@ -220,7 +220,7 @@ def gen(tier, rng):
             if n >= 4:
                 vals = rng.sample(vals, min(len(vals), 14 * scale)) + [0, (1 << (64 * n)) - 1]
             vals += [value(rng, n) for _ in range(3 * scale)]
-            vals += [v for v in hi_boundary(rng, r, 6 * scale) + f25_witnesses(rng, r, 6 * scale) if v < (1 << (64 * n))]
+            vals += [v for v in hi_boundary(rng, r, 6 * scale) + f30_witnesses(rng, r, 6 * scale) if v < (1 << (64 * n))]
             for i, v in enumerate(vals):
                 A = to_limbs(v, n)
                 add(Case('uint.to_string_radix', [A, R], mop='uint.to_string_radix', dbg=(i % 3 == 0)))
@@ -239,7 +239,7 @@ def gen(tier, rng):
             vals += [value(rng, n) for _ in range(2)]
             # values far narrower than the precision (many zero high limbs)
             vals += [value(rng, rng.randrange(1, n + 1)) for _ in range(2)]
-            hb = hi_boundary(rng, r, 5 * scale) + f25_witnesses(rng, r, 5 * scale)
+            hb = hi_boundary(rng, r, 5 * scale) + f30_witnesses(rng, r, 5 * scale)
             vals += [v for v in hb if v < (1 << (64 * n))]
             if n > 32:
                 # the witness inside the 32-limb remainder of the large-divisor loop
@@ -300,6 +300,15 @@ def gen(tier, rng):
                     add(Case('boxed.from_str_radix', [sx, R], mop='boxed.from_str_radix', dbg=dbg))
                 else:
                     add(Case('boxed.from_str_radix_prec', [sx, R, [t]], mop='boxed.from_str_radix_prec', dbg=dbg))
+    # ---------------- 63 + 32k limbs: after the first large-divisor pass the quotient has exactly 32 limbs, a second
+    # pass follows and `out_idx.saturating_sub(digits_large)` saturates for some radixes (C11 keeps these cases)
+    for r in range(2, 37):
+        for n in (63, 95, 127):
+            for A in ([MAXW] * n, [0xF0F0F0F0F0F0F0F0] * n):
+                add(Case('boxed.to_string_radix', [A, [r]], mop='boxed.to_string_radix', tags=('c11:keep',), dbg=True))
+    for r in (3, 6, 7, 12, 14, 20, 24, 31):
+        for A in ([MAXW] * 63, [0xF0F0F0F0F0F0F0F0] * 63):
+            add(Case('uint.to_string_radix', [A, [r]], mop='uint.to_string_radix', tags=('c11:keep',), dbg=True))
     # ---------------- unsupported radixes: documented panic (before any look at the string)
     for r in [0, 1, 37, 38, 64, 255, 256, 258, (1 << 32) - 1, (1 << 32) - 254]:
         for sx in ([0x31], [], [0x5f], [0x31, 0x30]):
